@@ -60,12 +60,58 @@ def check(ctx, src):
     ctx.check(not wr, "ISOLATION", "reader|DEFAULT_TABLE writers", f"DEFAULT_TABLE is written at {[norm(w)[:40] for w in wr]}", RD, 0, detail="only the metaclass")
     acr = hr.func("HyReader.as_current_reader")
     ctx.require(acr is not None, "as_current_reader not found")
-    b = [norm(s) for s in acr.body]
-    tr = acr.body[-1]
-    ok = b[:2] == ["old_reader = HyReader._current_reader", "HyReader._current_reader = self"] and isinstance(tr, ast.Try) and isinstance(tr.body[0], ast.Expr) and isinstance(tr.body[0].value, ast.Yield) \
-        and [norm(s) for s in tr.finalbody] == ["HyReader._current_reader = old_reader"]
-    ctx.check(ok, "ISOLATION", f"{HR}|as_current_reader|restore in finally", "the previous current reader must be restored in a finally around the yield", HR, acr.lineno,
-              witness="after a read of module A fails, A's reader stays current and a defreader evaluated for module B lands in it", detail="save; set; try: yield finally: restore")
+    # save / set / yield / restore: the old value of HyReader._current_reader is read into a local before it is overwritten
+    # with self, and every yield of the context manager is inside a try whose finally writes that local back
+    def _is_cur(e):
+        return isinstance(e, ast.Attribute) and e.attr == "_current_reader"
+    pairs = list(pyq.assign_pairs(acr))
+    saves = [(t, st) for t, v, st in pairs if isinstance(t, ast.Name) and _is_cur(v)]
+    sets_ = [st for t, v, st in pairs if _is_cur(t) and isinstance(v, ast.Name) and v.id == "self"]
+    yields = [n for n in ast.walk(acr) if isinstance(n, (ast.Yield, ast.YieldFrom))]
+    saved = saves[0][0].id if saves else None
+    def _restores(tr_):
+        return any(_is_cur(t) and isinstance(v, ast.Name) and v.id == saved for st in tr_.finalbody for t, v, _ in pyq.assign_pairs(st))
+    protected = [y for y in yields if any(part == "body" and _restores(t_) for t_, part in pyq.enclosing_try_parts(y))]
+    _o = pyq.order(acr)
+    verdict = None
+    if saves and sets_ and yields:
+        verdict = len(protected) == len(yields) and _o[id(saves[0][1])] <= _o[id(sets_[0])]
+    ctx.decide("ISOLATION", f"{HR}|as_current_reader|restore in finally", verdict, "the previous current reader must be restored in a finally around the yield", HR, acr.lineno,
+               witness="after a read of module A fails, A's reader stays current and a defreader evaluated for module B lands in it", detail="save; set; try: yield finally: restore")
+    # each form is read with this reader installed as the current one *for that form only*: the dispatch to handler code in
+    # try_parse_one_form (or a helper it calls) is lexically inside `with self.as_current_reader()`.  (A `with` around the
+    # whole generator in parse() would keep the reader installed while the consumer of the stream runs.)
+    tpf = hr.func("HyReader.try_parse_one_form")
+    ctx.require(tpf is not None, "try_parse_one_form not found")
+
+    def _is_dispatch(n):
+        return isinstance(n, ast.Call) and (dotted(n.func) == "self.read_default" or (isinstance(n.func, ast.Name) and n.args and isinstance(n.args[0], ast.Name) and n.args[0].id == "self"))
+
+    def _under_with(n, f_):
+        p_ = getattr(n, "_parent", None)
+        while p_ is not None and p_ is not f_:
+            if isinstance(p_, ast.With) and any("as_current_reader()" in norm(i.context_expr) for i in p_.items):
+                return True
+            p_ = getattr(p_, "_parent", None)
+        return False
+
+    def _installed(f_, depth=0):
+        """True / False / None for: every dispatch reachable from f_ happens under the with."""
+        res = []
+        for n in ast.walk(f_):
+            if _is_dispatch(n):
+                res.append(_under_with(n, f_))
+            elif depth < 2 and isinstance(n, ast.Call) and isinstance(n.func, ast.Attribute) and isinstance(n.func.value, ast.Name) and n.func.value.id == "self" \
+                    and hr.func(f"HyReader.{n.func.attr}") is not None and n.func.attr not in ("read_default", "try_parse_one_form", "parse_one_form", "parse_forms_until"):
+                h_ = hr.func(f"HyReader.{n.func.attr}")
+                if any(_is_dispatch(x) for x in ast.walk(h_)):
+                    res.append(True if _under_with(n, f_) else _installed(h_, depth + 1))
+        if not res:
+            return None
+        return False if False in res else (None if None in res else True)
+
+    ctx.decide("ISOLATION", f"{HR}|try_parse_one_form|installed per form", _installed(tpf), "handler code of a form must run inside `with self.as_current_reader()` entered for that form", HR, tpf.lineno,
+               witness="a reader left installed by a suspended read_many generator receives the reader macros of the next module", detail="with self.as_current_reader() around the dispatch")
     cr = hr.func("HyReader.current_reader")
     ctx.check(cr is not None and norm(cr.body[-1]) == "return override or HyReader._current_reader or (cls() if create else None)", "ISOLATION", f"{HR}|current_reader|priority", "an explicit reader must take priority over the ambient one", HR, cr.lineno if cr else 0,
               witness="a module imported while another stream is being compiled registers its reader macros in the importer's reader", detail="override or _current_reader or new")
